@@ -117,6 +117,49 @@ class ParseWalk(object):
                 raise StructuralViolation('R5.2', '%s:%s Category.parse' % (REL, fn.lineno), 'parse:shared-stack',
                                           'Category.parse keeps its operand stack in the module-level list `%s`: what a rejected text left on it (an exception raised inside the '
                                           'token loop) is read as part of the next text, so a well-formed category is then misread or rejected' % nm)
+        if len(allocs) > 1:
+            # the operand stack is the list the categories are pushed on; another list kept next to it (the closing
+            # brackets still expected, a depth count) is bookkeeping -- sound only when it is popped on every path that
+            # consumes a closing bracket, as it is pushed on every path that consumes an opening one
+            operand = {e[1][1][1] for st, o in self.paths for e in st.events if e[0] == 'call' and e[1][1][0] == 'attr' and e[1][1][2] == 'append'
+                       and e[1][1][1][0] == 'alloc' and e[1][2] and e[1][2][0][0] == 'call' and e[1][2][0][1] in (N('Atom'), N('Functor'))}
+            if len(operand) == 1:
+                main = next(iter(operand))
+                aux = allocs - operand
+
+                def on_call2(st, t, node):
+                    f = t[1]
+                    if f[0] == 'attr' and f[2] in ('pop', 'popleft') and not t[2] and not t[3]:
+                        if f[1] in aux:
+                            st.data.setdefault('auxpop', []).append(f[1])
+                            return ('sym', 'aux-popped', len(st.data['auxpop']))
+                        kind = 'popped' if f[1] == main else 'token'
+                        k = st.data.get(kind, 0)
+                        st.data[kind] = k + 1
+                        return ('sym', kind, k)
+                    return None
+                self.paths = SymExec(fn, unroll=1, on_call=on_call2).run()
+                self.stack = main
+                for L in sorted(aux):
+                    pushes, pops, tested = {}, {}, False
+                    for st, o in self.paths:
+                        tc = self.token_chars(st)
+                        n_push = sum(1 for e in st.events if e[0] == 'call' and e[1][1][0] == 'attr' and e[1][1][2] == 'append' and e[1][1][1] == L)
+                        n_pop = sum(1 for x in st.data.get('auxpop', []) if x == L)
+                        tested = tested or any(x == L or (x[0] == 'sym' and x[1] == 'aux-popped') for c, _p, _ in st.conds for x in subterms(c))
+                        if tc and tc <= set('(<'):
+                            pushes.setdefault(n_push, 0)
+                            pushes[n_push] += 1
+                        if tc and tc <= set(')>') and o != 'raise':
+                            pops.setdefault(n_pop, 0)
+                            pops[n_pop] += 1
+                    if tested and set(pushes) == {1} and set(pops) != {1}:
+                        from ..core import StructuralViolation
+                        raise StructuralViolation('R5.2', '%s:%s Category.parse' % (REL, fn.lineno), 'parse:aux-stack-unbalanced',
+                                                  'Category.parse keeps a second list next to its operand stack that takes an entry for every opening bracket and is tested, '
+                                                  'but it is popped on only some of the paths that consume a closing bracket (pops per path: %s): what a redundant pair of '
+                                                  'brackets leaves behind is compared with a later bracket, and a well-formed text is rejected' % sorted(pops))
+                allocs = operand
         if len(allocs) != 1:
             raise AnalysisError('%s: Category.parse: expected one operand stack created as an empty list, found %d' % (REL, len(allocs)))
         self.stack = next(iter(allocs))
